@@ -5,8 +5,11 @@ objects, Gallina encoders for settings / layers / values.
 """
 from __future__ import annotations
 
+import ast
+import inspect
 import itertools
 import random
+import textwrap
 
 import attr
 import attrs
@@ -33,7 +36,10 @@ RULE = ("(1) field level, exhaustive: attr.ib over cmp/eq/order in {None,True,Fa
         "subclasses overriding only __eq__); (4) inheritance chains of "
         "2..3 classes (fields added / overridden, classes with eq off that inherit a generated __eq__), "
         "same-class, subclass, superclass, foreign (plain and with its own reflected methods), identical "
-        "object and float-NaN operands; (5) classes with 4..5 fields on sampled pairs.  distinct = distinct "
+        "object and float-NaN operands; (5) classes with 4..5 fields on sampled pairs; (6) hashable classes "
+        "(unsafe_hash, mostly cache_hash, frozen or mutable, eq=False fields with hash=True): histories compare / "
+        "hash both / compare / assign a field / compare; (7) eq key functions returning a set, a dict, an "
+        "eq-only unhashable object, on classes with and without generated __hash__, all pairs over {0,1,2}^k.  distinct = distinct "
         "case inputs; non-trivial = at least one eq-participating field and one probe")
 EXTRA_TRUSTED = [
     "CPython's binary-operator dispatch (do_richcompare) as modelled by Common.dispatch; int == int, "
@@ -231,7 +237,29 @@ class Foreign:
 
 _WORLD = [None]
 
-INTFN = {0: lambda v: -v, 1: abs, 2: lambda v: v % 2}
+class EqOnly:
+    """Key result defining only __eq__ (hence unhashable, and not iterable)."""
+
+    def __init__(self, v):
+        self.v = v
+
+    def __eq__(self, other):
+        return isinstance(other, EqOnly) and self.v % 2 == other.v % 2
+
+
+def _set_key(v):
+    # equal sets with different iteration order (0 and 8 collide in a small table): v <= 1 all map to
+    # the set {0, 8}, built in either insertion order; v >= 2 to {v}.  == classes: max(v, 1)
+    if v >= 2:
+        return {v}
+    s = set()
+    for e in ((0, 8) if v % 2 == 0 else (8, 0)):
+        s.add(e)
+    return s
+
+
+INTFN = {0: lambda v: -v, 1: abs, 2: lambda v: v % 2,
+         4: _set_key, 5: lambda v: {0: v}, 6: EqOnly}
 
 
 def _mk_key(k):
@@ -246,7 +274,7 @@ def _mk_key(k):
     return key
 
 
-KEYFN = {k: _mk_key(k) for k in range(4)}
+KEYFN = {k: _mk_key(k) for k in range(7)}
 KEYID = {id(f): k for k, f in KEYFN.items()}
 
 # --------------------------------------------------------------------------------------
@@ -276,7 +304,7 @@ def coq_layer(spec, fields):
         "None" if auto is None else "(Some %s)" % b(auto),
         b(bool(spec.get("own_eq"))), b(bool(spec.get("own_order"))))
     fs = lst("(FS %d %s %s %s)" % (NAMES.index(n), coq_setting(c), coq_setting(e), coq_setting(o))
-             for n, c, e, o in fields)
+             for n, c, e, o in (f[:4] for f in fields))
     return "(LY %s %s)" % (ca, fs)
 
 
@@ -310,8 +338,10 @@ def coq_script(script):
                for k, v in sorted(script.items(), key=lambda kv: int(kv[0])))
 
 
-def make_field(api, cmp, eq, order):
+def make_field(api, cmp, eq, order, hash_=None):
     kw = {}
+    if hash_ is not None:
+        kw["hash"] = {"T": True, "F": False}[hash_]
     if cmp != "N" or api == "s_explicit":
         kw["cmp"] = py_setting(cmp)
     if eq != "N":
@@ -352,14 +382,15 @@ class EqMeta(type):
 
 def build_class(spec, base):
     body = {}
-    for n, c, e, o in spec["own"]:
-        body[n] = make_field(spec["api"], c, e, o)
+    for f in spec["own"]:
+        n, c, e, o = f[:4]
+        body[n] = make_field(spec["api"], c, e, o, f[4] if len(f) > 4 else None)
     if spec.get("own_eq"):
         body["__eq__"] = _own_eq
     if spec.get("own_order"):
         body["__lt__"] = _own_lt
     if spec.get("annot"):
-        body["__annotations__"] = {n: int for n, _c, _e, _o in spec["own"]}
+        body["__annotations__"] = {f[0]: int for f in spec["own"]}
     mk = EqMeta if spec.get("meta") else type
     cls = mk("K%d" % next(_counter), (base,) if base is not None else (), body)
     kw = {}
@@ -372,6 +403,9 @@ def build_class(spec, base):
         kw["slots"] = spec["slots"]
     if spec.get("frozen"):
         kw["frozen"] = True
+    for k in ("unsafe_hash", "cache_hash"):
+        if spec.get(k):
+            kw[k] = True
     deco = attr.s if spec["api"] == "s" else attrs.define
     return deco(**kw)(cls) if (kw or spec.get("call", True)) else deco(cls)
 
@@ -443,6 +477,139 @@ def coq_operand(o):
 
 
 # --------------------------------------------------------------------------------------
+# script-level tie: fail-closed reader of the real generated __eq__ source
+
+
+class Unrecognised(Exception):
+    pass
+
+
+def _side(n, who):
+    """`who.f` -> (f, None) ; `H(who.f)` -> (f, H)"""
+    helper = None
+    if isinstance(n, ast.Call) and isinstance(n.func, ast.Name) and len(n.args) == 1 and not n.keywords:
+        helper, n = n.func.id, n.args[0]
+    if isinstance(n, ast.Attribute) and isinstance(n.value, ast.Name) and n.value.id == who \
+            and isinstance(n.ctx, ast.Load):
+        return n.attr, helper
+    raise Unrecognised(ast.dump(n))
+
+
+def parse_eq_source(src, globs):
+    """Source text of a generated __eq__ -> [(field name, key id | None)] in chain order."""
+    try:
+        tree = ast.parse(textwrap.dedent(src))
+    except SyntaxError as e:
+        raise Unrecognised("syntax: %s" % e)
+    if len(tree.body) != 1 or not isinstance(tree.body[0], ast.FunctionDef):
+        raise Unrecognised("not a single def")
+    fn = tree.body[0]
+    a = fn.args
+    if (fn.name != "__eq__" or [x.arg for x in a.args] != ["self", "other"] or a.vararg or a.kwarg
+            or a.kwonlyargs or a.posonlyargs or a.defaults or fn.decorator_list):
+        raise Unrecognised("signature")
+    body = [st for st in fn.body if not (isinstance(st, ast.Expr) and isinstance(st.value, ast.Constant)
+                                         and isinstance(st.value.value, str))]
+    if len(body) != 2:
+        raise Unrecognised("body has %d statements" % len(body))
+    test, ret = body
+
+    def cls_of(n, who):
+        return (isinstance(n, ast.Attribute) and n.attr == "__class__" and isinstance(n.value, ast.Name)
+                and n.value.id == who)
+    ok = (isinstance(test, ast.If) and not test.orelse and isinstance(test.test, ast.Compare)
+          and len(test.test.ops) == 1 and isinstance(test.test.ops[0], ast.IsNot)
+          and cls_of(test.test.left, "other") and cls_of(test.test.comparators[0], "self")
+          and len(test.body) == 1 and isinstance(test.body[0], ast.Return)
+          and isinstance(test.body[0].value, ast.Name) and test.body[0].value.id == "NotImplemented")
+    if not ok:
+        raise Unrecognised("class test: " + ast.dump(test))
+    if not isinstance(ret, ast.Return) or ret.value is None:
+        raise Unrecognised("no return")
+    v = ret.value
+    if isinstance(v, ast.Constant) and v.value is True:
+        return []
+    if isinstance(v, ast.BoolOp) and isinstance(v.op, ast.And):
+        parts = v.values
+    else:
+        parts = [v]
+    chain = []
+    for c in parts:
+        if not (isinstance(c, ast.Compare) and len(c.ops) == 1 and isinstance(c.ops[0], ast.Eq)):
+            raise Unrecognised(ast.dump(c))
+        f1, h1 = _side(c.left, "self")
+        f2, h2 = _side(c.comparators[0], "other")
+        if f1 != f2 or h1 != h2:
+            raise Unrecognised("sides differ: " + ast.dump(c))
+        if f1 not in NAMES:
+            raise Unrecognised("unknown field " + f1)
+        if h1 is None:
+            chain.append((f1, None))
+        else:
+            if h1 != "__attr_key_" + f1 or h1 not in globs or id(globs[h1]) not in KEYID:
+                raise Unrecognised("key helper %s" % h1)
+            chain.append((f1, KEYID[id(globs[h1])]))
+    return chain
+
+
+_script_terms = {}        # term -> source (distinct classes by field list + parsed chain)
+_script_unrecognised = []
+_script_classes = [0]
+
+
+def record_scripts(classes, fieldlists):
+    for cls, fl in zip(classes, fieldlists):
+        fn = cls.__dict__.get("__eq__")
+        if fn is None or not hasattr(fn, "__code__"):
+            continue
+        _script_classes[0] += 1
+        try:
+            src = inspect.getsource(fn)
+            chain = parse_eq_source(src, fn.__globals__)
+        except Unrecognised as e:
+            if len(_script_unrecognised) < 50:
+                _script_unrecognised.append(str(e)[:300])
+            else:
+                _script_unrecognised.append("")
+            continue
+        except (OSError, TypeError) as e:
+            _script_unrecognised.append("no source: %r" % (e,))
+            continue
+        term = "(SC %s %s)" % (
+            lst("(FS %d %s %s %s)" % (NAMES.index(n), coq_setting(c), coq_setting(e), coq_setting(o))
+                for n, c, e, o in (f[:4] for f in fl)),
+            lst("(%d, %s)" % (NAMES.index(f), vlib.opt(k, str)) for f, k in chain))
+        _script_terms.setdefault(term, src)
+
+
+def script_tie():
+    """Translation validation of the eq generator (supplementary evidence, never an alarm)."""
+    if not _script_classes[0]:
+        return {"script_tie": "no classes"}
+    terms = list(_script_terms)
+    bad = vlib.run_cases(PROP, HEADER, "script_case", "script_case_ok", terms, tag="script") if terms else []
+    res = {"script_tie": {"classes_parsed": _script_classes[0], "distinct_scripts": len(terms),
+                          "equal": len(terms) - len(bad), "different": len(bad),
+                          "unrecognised": len(_script_unrecognised)}}
+    if bad:
+        t = terms[bad[0]]
+        res["script_tie"]["first_difference"] = {
+            "real_source": _script_terms[t], "parsed": t,
+            "model_script": vlib.eval_in_coq(PROP, HEADER, "script_model_of (%s)" % t)[:2000]}
+        print("NOTE: script-level tie: %d of %d distinct real __eq__ sources differ from the model's script "
+              "(not a verdict; see evidence)" % (len(bad), len(terms)))
+    if _script_unrecognised:
+        res["script_tie"]["first_unrecognised"] = next((u for u in _script_unrecognised if u), "")[:500]
+        print("NOTE: script-level tie: %d real __eq__ source(s) have a shape the reader does not know "
+              "(not a verdict)" % len(_script_unrecognised))
+    return res
+
+
+def extra(tier, seed):
+    return [], dict(script_tie(), runtime_observations=0)
+
+
+# --------------------------------------------------------------------------------------
 # C03 observations
 
 
@@ -477,6 +644,7 @@ def run_chain(inp):
         return {"def": "ValueError"}, None
     except Exception as e:  # noqa: BLE001
         return {"def": "other:" + type(e).__name__}, None
+    record_scripts(classes, fieldlists)
     gen = []
     for cls in reversed(classes):
         he, hn = "__eq__" in cls.__dict__, "__ne__" in cls.__dict__
@@ -496,8 +664,27 @@ def run_chain(inp):
             c, dom = it[1], it[2]
             i = n - 1 - c
             k = len(fieldlists[i])
-            vecs = [] if it[0] == "pair" else [[["i", z] for z in v] for v in itertools.product(dom, repeat=k)]
+            vecs = [] if it[0] in ("pair", "hist") else [[["i", z] for z in v] for v in itertools.product(dom, repeat=k)]
             codes = []
+            if it[0] == "hist":
+                fl = fieldlists[i]
+                x = instantiate(classes[i], fl, [["i", z] for z in it[2]], world)
+                y = instantiate(classes[i], fl, [["i", z] for z in it[3]], world)
+
+                def qcode():
+                    q = eq_quad(x, y, world)
+                    return sum(_digit(r[0]) * 4 ** j for j, r in enumerate(q))
+                codes = [qcode()]
+                try:
+                    hash(x), hash(y)
+                    codes.append(qcode())
+                    if it[4] is not None:
+                        setattr(x, fl[it[4][0]][0], it[4][1])
+                        codes.append(qcode())
+                except Exception as e:  # noqa: BLE001 - not expected: the classes are hashable and mutable
+                    codes.append(900 + exc_id(e))
+                outs.append(["all", codes])
+                continue
             if it[0] == "pair":
                 x = instantiate(classes[i], fieldlists[i], [["i", z] for z in it[2]], world)
                 i2 = n - 1 - it[3]
@@ -546,6 +733,9 @@ def chain_case(inp):
             items.append("(IAll %d %s)" % (it[1], zl(it[2])))
         elif it[0] == "row":
             items.append("(IRow %d %s %s)" % (it[1], zl(it[2]), zl(it[3])))
+        elif it[0] == "hist":
+            mut = "None" if it[4] is None else "(Some (%d, (%d)%%Z))" % (it[4][0], it[4][1])
+            items.append("(IHist %d %s %s %s)" % (it[1], zl(it[2]), zl(it[3]), mut))
         else:
             items.append("(IPair %d %s %d %s)" % (it[1], zl(it[2]), it[3], zl(it[4])))
     if seen["def"] == "ValueError":
@@ -836,17 +1026,81 @@ def wide_cases(rng, tier):
     return out
 
 
+def hash_cases(rng, tier):
+    """Classes with a generated (and cached) __hash__: hashing both operands, or re-assigning a field
+    afterwards, never changes what == / != answer (eq=False fields may take part in the hash)."""
+    out = []
+    for _ in range(60 if tier == "quick" else 600):
+        k = rng.choice([1, 2, 3])
+        own = rand_own(rng, NAMES[:k])
+        for f in own:
+            if any(s_[0] == "K" for s_ in f[1:4]) and rng.random() < 0.5:
+                f[1:4] = ["N", "K%d" % rng.randint(0, 3), "N"]
+            if (f[1] == "F" or f[2] == "F") and rng.random() < 0.8:
+                f.append("T")                      # eq=False but hash=True
+        if rng.random() < 0.6 and not any(len(f) > 4 for f in own):
+            own[rng.randrange(k)][1:] = ["N", "F", "N", "T"]
+        if all(f[1] == "F" or f[2] == "F" for f in own):
+            own[0][1:] = ["N", "N", "N"]          # at least one eq field
+        layer = rand_layer(rng, own)
+        layer.update(cmp=None, eq=rng.choice([None, "T"]), order=None)
+        frozen = rng.random() < 0.4
+        layer["frozen"] = frozen
+        layer["unsafe_hash"] = True
+        layer["cache_hash"] = rng.random() < 0.8
+        items = []
+        for _ in range(6):
+            xv = [rng.randint(0, 2) for _ in range(k)]
+            yv = list(xv)
+            for j, f in enumerate(own):
+                eq_off = f[1] == "F" or f[2] == "F"
+                if rng.random() < (0.7 if eq_off else 0.25):
+                    yv[j] = rng.randint(0, 2)
+            mut = None
+            if not frozen:
+                j = rng.randrange(k)
+                mut = [j, yv[j] if rng.random() < 0.7 else rng.randint(0, 2)]
+            items.append(["hist", 0, xv, yv, mut])
+        out.append({"chain": [layer], "script": {}, "items": items})
+    return out
+
+
+def keyres_cases(rng, tier):
+    """Key functions whose results are a set, a dict, an object defining only __eq__, on classes with
+    and without a generated __hash__ (never hashed): all ordered pairs, same answers either way."""
+    out = []
+    hashcfgs = [{}, {"frozen": True}, {"unsafe_hash": True}, {"unsafe_hash": True, "cache_hash": True},
+                {"frozen": True, "cache_hash": True}]
+    combos = [[kk] for kk in (4, 5, 6)] + [[a, c] for a in (4, 5, 6, None) for c in (4, 5, 6, 1)]
+    for combo in combos:
+        own = []
+        for i, kk in enumerate(combo):
+            t = ["N", "N", "N"] if kk is None else rng.choice([["N", "K%d" % kk, "F"], ["N", "K%d" % kk, "F"],
+                                                                 ["N", "K%d" % kk, "K0"]])
+            own.append([NAMES[i]] + t)
+        for cfg in (hashcfgs if tier == "thorough" else [hashcfgs[0]] + rng.sample(hashcfgs[1:], 2)):
+            layer = rand_layer(rng, own)
+            layer.update(cmp=None, eq=None, order=None, frozen=False)
+            layer.update(cfg)
+            out.append({"chain": [layer], "script": {}, "items": [["all", 0, [0, 1, 2]]]})
+    return out
+
+
 FIELD_VALUES = ["N", "T", "F", "K0", "K1"]
 
 
 def generate(tier, seed):
     rng = random.Random(seed)
     cases = []
+    _script_terms.clear()
+    _script_unrecognised.clear()
+    _script_classes[0] = 0
     for c, e, o in itertools.product(FIELD_VALUES, repeat=3):
         cases.append(field_case({"api": "s", "cmp": c, "eq": e, "order": o}))
     for e, o in itertools.product(FIELD_VALUES, repeat=2):
         cases.append(field_case({"api": "d", "cmp": "N", "eq": e, "order": o}))
-    for inp in sweep_cases(rng, tier) + scripted_cases(rng, tier) + chain_cases(rng, tier) + wide_cases(rng, tier):
+    for inp in (sweep_cases(rng, tier) + scripted_cases(rng, tier) + chain_cases(rng, tier) + wide_cases(rng, tier)
+                + hash_cases(rng, tier) + keyres_cases(rng, tier)):
         cases.append(chain_case(inp))
     return cases
 
